@@ -229,9 +229,11 @@ fn rename_idents(s: &str, map: &HashMap<String, String>) -> String {
     let mut cur = String::new();
     let flush = |cur: &mut String, out: &mut String| {
         if !cur.is_empty() {
+            // a field or method name (`self.stream`, `x.len()`) is not a binding: only free-standing identifiers are renamed
+            let after_dot = out.trim_end().ends_with('.') && !out.trim_end().ends_with("..");
             match map.get(cur.as_str()) {
-                Some(n) => out.push_str(n),
-                None => out.push_str(cur),
+                Some(n) if !after_dot => out.push_str(n),
+                _ => out.push_str(cur),
             }
             cur.clear();
         }
